@@ -216,6 +216,13 @@ def run(ctx):
                     base.update(pb=0, mb=1, sb=1)
                 g0 = [ctx.rng.choice([2, 3, 4, 8]), ctx.rng.choice([2, 4]), ctx.rng.choice([1, 2])]
                 cfgs = [dict(base, grid=[max(1, -(-g // (2 ** k))) for g in g0]) for k in range(nsc)]
+                if ctx.rng.random() < 0.6:
+                    # ... same bit triple, but the scales differ in their data / index encodings
+                    for cfg in cfgs:
+                        cfg["enc"] = ctx.rng.choice(["raw", "gzip"])
+                        cfg["ienc"] = ctx.rng.choice(["raw", "gzip"])
+                    if len({(c["enc"], c["ienc"]) for c in cfgs}) == 1:
+                        cfgs[-1]["enc"] = "gzip" if cfgs[0]["enc"] == "raw" else "raw"
                 if ctx.rng.random() < 0.5:
                     cfgs.reverse()          # coarse scale first
             stored_lists = []
